@@ -77,6 +77,9 @@ func runRacePass(c *runCtx, procs, iterations int) (map[string]interface{}, []vi
 	outs := make([]res, procs)
 	errs := make([]error, procs)
 	logs := make([]string, procs)
+	var crashMu sync.Mutex
+	var crashes []string
+	var crashViols []violation
 	var wg sync.WaitGroup
 	for i := 0; i < procs; i++ {
 		wg.Add(1)
@@ -92,6 +95,14 @@ func runRacePass(c *runCtx, procs, iterations int) (map[string]interface{}, []vi
 			cmd.Stderr = &eb
 			b, err := cmd.Output()
 			if err != nil {
+				if fr := repoPanicFrames(eb.String()); fr != "" {
+					// the wallet itself crashed under concurrent use (the panicking goroutine's first
+					// frames are repository code): a violation, not a harness fault
+					crashMu.Lock()
+					crashes = append(crashes, fr)
+					crashMu.Unlock()
+					return
+				}
 				errs[i] = fmt.Errorf("race worker %d: %v\n%s", i, err, tail(eb.String(), 3000))
 				return
 			}
@@ -107,6 +118,9 @@ func runRacePass(c *runCtx, procs, iterations int) (map[string]interface{}, []vi
 		}(i)
 	}
 	wg.Wait()
+	for _, fr := range crashes {
+		crashViols = append(crashViols, violation{Hist: []string{"race-pass"}, Viol: []string{"the wallet crashed while API calls, follower, import and removal ran concurrently: " + fr}, Known: []string{"wallet-crash-under-concurrency"}})
+	}
 	for _, e := range errs {
 		if e != nil {
 			return nil, nil, e
@@ -116,6 +130,7 @@ func runRacePass(c *runCtx, procs, iterations int) (map[string]interface{}, []vi
 	reports, excluded := 0, 0
 	seen := map[string]bool{}
 	var viols []violation
+	viols = append(viols, crashViols...)
 	for i := range outs {
 		tot.Iterations += outs[i].Iterations
 		tot.APICalls += outs[i].APICalls
@@ -251,4 +266,45 @@ func init() {
 		},
 		Replay: func(c *runCtx, file string) error { return replaySched(c, "c17", file) },
 	}
+}
+
+// repoPanicFrames looks at the stderr of a crashed worker: if the panicking goroutine's
+// innermost non-runtime frame is repository code it returns the first repository frames.
+func repoPanicFrames(stderr string) string {
+	i := strings.Index(stderr, "panic:")
+	if i < 0 {
+		i = strings.Index(stderr, "fatal error:")
+	}
+	if i < 0 {
+		return ""
+	}
+	lines := strings.Split(stderr[i:], "\n")
+	started := false
+	var frames []string
+	first := ""
+	for _, l := range lines {
+		if strings.HasPrefix(l, "goroutine ") {
+			if started {
+				break
+			}
+			started = true
+			continue
+		}
+		if !started || strings.HasPrefix(l, "\t") || l == "" || strings.HasPrefix(l, "runtime.") || strings.HasPrefix(l, "panic(") || strings.HasPrefix(l, "[signal") {
+			continue
+		}
+		if first == "" {
+			first = l
+		}
+		if strings.HasPrefix(l, "massnet.org/mass-wallet/") && len(frames) < 5 {
+			if k := strings.LastIndex(l, "("); k > 0 {
+				frames = append(frames, strings.TrimPrefix(l[:k], "massnet.org/mass-wallet/"))
+			}
+		}
+	}
+	if !strings.HasPrefix(first, "massnet.org/mass-wallet/") {
+		return ""
+	}
+	head := strings.SplitN(stderr[i:], "\n", 2)[0]
+	return head + " | " + strings.Join(frames, " < ")
 }
